@@ -44,6 +44,7 @@ def shards(tier):
 def required_counters(tier):
     return {
         "histories": 100,
+        "histories.with_plain_pyc_present": 15,
         "modules.instrumented": 200,
         "modules.not_instrumented": 200,
         "lookalike_not_instrumented": 30,
@@ -313,8 +314,16 @@ def run_history(rec, rng, key):
     root = tempfile.mkdtemp(prefix="jtv_c11_")
     try:
         write_forest(root, mods)
+        precompiled = rng.random() < 0.3
+        if precompiled:
+            # the project was run (or installed: pip byte-compiles) WITHOUT the hook before: ordinary, up-to-date
+            # .pyc files sit in __pycache__ while this run (python -B / PYTHONDONTWRITEBYTECODE=1) only reads
+            import compileall
+
+            compileall.compile_dir(root, quiet=2, workers=1)
+            rec.count("histories.with_plain_pyc_present")
         out = run_child(root, ops)
-        case = {"rngkey": key, "forest": {m: v for m, v in mods.items()}, "ops": ops}
+        case = {"rngkey": key, "forest": {m: v for m, v in mods.items()}, "ops": ops, "plain_pyc_present": precompiled}
         rec.count("histories")
         if any(isinstance(o.get("checker"), list) for o in ops):
             rec.count("checker.tuple_spelling")
